@@ -244,3 +244,20 @@ Proof.
   induction Hf as [|e evs He Hf IH]; cbn [app fold_right]; [reflexivity|].
   rewrite Hi; assumption.
 Qed.
+
+(* the per-packet result [raw_read] used by the multi-packet loop_read is the one [loop_read] looks at *)
+Lemma loop_read_raw c nested i s :
+  loop_read c nested i s =
+  match sock s with
+  | None => (s, Some E_NO_CONN)
+  | Some id0 => after_read c nested id0 (raw_read c nested i s)
+  end.
+Proof.
+  unfold loop_read, raw_read. destruct (sock s) as [id0|]; [|reflexivity].
+  destruct i; try reflexivity.
+  - destruct ((proto s =? 4) && (rc =? 1)); reflexivity.
+  - destruct (proto s =? 4); reflexivity.
+  - destruct (proto s =? 5); [|reflexivity].
+    unfold handle_server_disconnect. destruct (lost c nested RServerDisc rc true s). reflexivity.
+  - destruct (packet_queue c nested KOther s); reflexivity.
+Qed.
